@@ -3,6 +3,7 @@ package main
 import (
 	"fmt"
 	"go/types"
+	"math"
 	"math/big"
 	"strings"
 )
@@ -523,6 +524,14 @@ func toSMT(e Expr, env *Env) Term {
 		case "pi":
 			r := new(big.Rat)
 			r.SetFloat64(3.141592653589793) // math.Pi as a float64
+			return RatLit(r)
+		case "deg2rad":
+			r := new(big.Rat)
+			r.SetFloat64(math.Pi / 180) // the float64 constant the compiler folds math.Pi/180 to
+			return RatLit(r)
+		case "rad2deg":
+			r := new(big.Rat)
+			r.SetFloat64(180 / math.Pi)
 			return RatLit(r)
 		case "true":
 			return BoolLit(true)
